@@ -74,19 +74,24 @@ namespace nmtools::index
         // the dst_i is index at i
         // the src_i should be the value of indices at dst_i
 
+        // a negative entry of indices counts from the end (of the axis, or of the flattened array)
+        [[maybe_unused]] auto from_end = [](auto idx, auto extent){
+            return ((nm_index_t)idx < 0) ? (nm_index_t)idx + (nm_index_t)extent : (nm_index_t)idx;
+        };
+
         if constexpr (is_none_v<axis_t>) {
             // handle flat indices
             // TODO: provide overload that already compute strides
             auto strides = compute_strides(shape);
             auto dst_i   = at(index,0);
-            auto offset  = at(indices,dst_i);
+            auto offset  = from_end(at(indices,dst_i),product(shape));
             impl::compute_indices(res, offset, shape, strides);
         }
         else {
             auto take_impl = [&](auto i){
                 auto dst_i = at(index,i);
                 using common_t = meta::promote_index_t<axis_t,decltype(i)>;
-                at(res, i) = ((common_t)i == (common_t)axis) ? at(indices,dst_i) : dst_i;
+                at(res, i) = ((common_t)i == (common_t)axis) ? from_end(at(indices,dst_i),at(shape,i)) : (nm_index_t)dst_i;
             };
             if constexpr (meta::is_fixed_index_array_v<index_t>) {
                 constexpr auto DIM = meta::len_v<index_t>;
